@@ -7,7 +7,7 @@
 //! call it was waiting for could complete and not later than the connection timeout, and late
 //! clients never receive a protocol byte.
 
-use crate::net::{self, ListenerCfg, NetClient, NetScript, RecvErr};
+use crate::net::{self, ListenerCfg, NetClient, NetScript};
 use crate::refcodec::Pkt;
 use crate::runner::{CaseInfo, Check, Tier, Verdict};
 use crate::sim;
